@@ -28,6 +28,11 @@ class Tracker:
 def gen_case(rng, base, cli):
     L = ["127.0.0.1:%d" % base, "127.0.0.1:%d" % (base + 1), "127.0.0.1:%d" % (base + 2)]
     env = [(L[0], base), (L[1], base + 1), (L[2], base + 2)]
+    if rng.chance(1, 3):
+        # the second proxy listens on every local address, written the short way (":port"): the library and the CLI pass it on as it is
+        L[1] = ":%d" % (base + 1)
+        env[1] = (L[1], (base + 1, L[1], "[::]:%d" % (base + 1)))
+        env.append(("[::]:%d" % (base + 1), (base + 1, "[::]:%d" % (base + 1), "[::]:%d" % (base + 1))))   # what a handle read back sends
     names = ["a", "b"]
     if rng.chance(1, 4):
         # names with characters that are special in URLs: a space must travel percent-encoded, a '+' stands for itself - and the two
